@@ -158,24 +158,43 @@ Proof.
   destruct w; [congruence|reflexivity].
 Qed.
 
-Lemma rd_factors_lines_l R (Fs : list (list (list D))) : 1 <= R ->
+(* m empty row lines (a factor without columns), read and dropped one by one *)
+Lemma drop_lines_empty_rows (A : list (list D)) (s : stream) : Forall (fun r => length r = 0) A ->
+  drop_lines T (length A) (to_stream (map (num_line D T print) A) ++ s) = s.
+Proof.
+  induction A as [|r A IH]; intros H; [reflexivity|]. inversion H as [|? ? Hr HA]; subst.
+  destruct r; [|discriminate]. cbn [length map C16Lines.drop_lines]. rewrite readline_cons. cbn [snd]. now apply IH.
+Qed.
+
+Lemma rd_factors_lines_l R (Fs : list (list (list D))) :
   Forall (fun A => Forall (fun row => length row = R) A) Fs ->
   rd_factors_l R (length Fs) (to_stream (flat_map (factor_lines D T print R) Fs)) = Some Fs.
 Proof.
-  intros HR. induction Fs as [|A Fs IH]; intros H; [reflexivity|]. inversion H as [|? ? HA HFs]; subst.
+  induction Fs as [|A Fs IH]; intros H; [reflexivity|]. inversion H as [|? ? HA HFs]; subst.
   cbn [length flat_map C16Lines.rd_factors_l]. unfold factor_lines at 1. rewrite to_stream_app.
   rewrite readline_cons. cbn [fst snd]. rewrite to_stream_app, <- app_assoc, rd_shape_l_lines by discriminate.
   cbn [bindo fst snd]. rewrite Nat.eqb_refl.
+  destruct (Nat.eq_dec R 0) as [R0|R0].
+  { (* no column: nothing is read by np.fromfile, the (length A) empty row lines are dropped *)
+    subst R. rewrite Nat.mul_0_r. cbn [C16Lines.rd_vals bindo fst snd Nat.eqb].
+    rewrite drop_lines_empty_rows by exact HA. rewrite IH by exact HFs. cbn [bindo].
+    assert (Ec : concat A = []).
+    { pose proof (length_concat_rows D A 0 HA) as L. rewrite Nat.mul_0_r in L. now destruct (concat A). }
+    rewrite <- Ec at 1. now rewrite (reshapeC2_concat D A 0 HA). }
   assert (Hrows : Forall (fun r : list D => r <> []) A).
   { rewrite Forall_forall in *. intros r Hr E. specialize (HA r Hr). subst r. cbn in HA. lia. }
   destruct (rd_vals_rows A (to_stream (flat_map (factor_lines D T print R) Fs)) Hrows) as (s' & E & Hs').
   rewrite <- (length_concat_rows D A R HA), E. cbn [bindo fst snd].
-  assert (Es : rd_factors_l R (length Fs) s' = Some Fs).
+  assert (Es : rd_factors_l R (length Fs)
+                 (if Nat.eqb (length (concat A)) 0 then drop_lines T (length A) s' else s') = Some Fs).
   { destruct A as [|r A'].
-    - cbn in E. inversion E; subst s'. apply IH, HFs.
-    - rewrite Hs' by discriminate. rewrite skip_ws_lines; [apply IH, HFs|].
-      intros l f' Ef. destruct Fs as [|B Fs']; [discriminate|]. cbn [flat_map] in Ef. unfold factor_lines at 1 in Ef.
-      inversion Ef. eexists _, _. split; [reflexivity|discriminate]. }
+    - cbn in E. inversion E; subst s'. cbn [concat length Nat.eqb C16Lines.drop_lines]. apply IH, HFs.
+    - replace (Nat.eqb (length (concat (r :: A'))) 0) with false.
+      + rewrite Hs' by discriminate. rewrite skip_ws_lines; [apply IH, HFs|].
+        intros l f' Ef. destruct Fs as [|B Fs']; [discriminate|]. cbn [flat_map] in Ef. unfold factor_lines at 1 in Ef.
+        inversion Ef. eexists _, _. split; [reflexivity|discriminate].
+      + symmetry. apply Nat.eqb_neq. inversion Hrows; subst. cbn [concat]. rewrite app_length.
+        destruct r; [congruence|cbn; lia]. }
   rewrite Es. cbn [bindo]. now rewrite (reshapeC2_concat D A R HA).
 Qed.
 
@@ -184,7 +203,7 @@ Definition wf_lines (o : obj D) : Prop :=
   match o with
   | OTensor X => dshape X <> []
   | OSptensor Sp => sshape Sp <> []
-  | OKtensor K => kfactors K <> [] /\ 1 <= krank K
+  | OKtensor K => kfactors K <> []
   | OMatrix _ _ _ => True
   | OArray s _ => s <> []
   end.
@@ -208,17 +227,25 @@ Proof.
       symmetry. apply forallb_forall. rewrite Forall_forall in Hb. auto.
     + rewrite Forall_forall. intros [i v] Hin. cbn [fst]. unfold entries in Hin. apply in_combine_l in Hin.
       rewrite Forall_forall in Hb. apply inb_length. auto.
-  - intros W [Hne HR]. rewrite <- (app_nil_r (to_stream _)). unfold C16Lines.import_stream. rewrite readline_cons. cbn [fst snd].
+  - intros W Hne. rewrite <- (app_nil_r (to_stream _)). unfold C16Lines.import_stream. rewrite readline_cons. cbn [fst snd].
     cbn [String.eqb Ascii.eqb Bool.eqb]. rewrite to_stream_app, <- app_assoc.
     assert (Hk : kshape K <> []) by (unfold kshape; destruct (kfactors K); [congruence|discriminate]).
     rewrite rd_shape_z_lines by exact Hk. cbn [bindo fst snd].
     rewrite readline_cons. cbn [fst snd head_int int_tok C16IO.zn bindo]. unfold nat_of.
     destruct (Z.leb_spec 0 (Z.of_nat (krank K))); [|lia]. cbn [bindo]. rewrite Nat2Z.id, app_nil_r.
+    destruct (Nat.eq_dec (krank K) 0) as [HR|HR].
+    { (* no component: the empty weights line is dropped by the extra readline *)
+      assert (Ew : kweights K = []) by (unfold krank in HR; destruct (kweights K); [reflexivity|discriminate]).
+      rewrite HR in *. rewrite Ew. cbn [rd_weights fst snd length Nat.eqb].
+      rewrite <- (app_nil_r (to_stream (num_line D T print [] :: _))), readline_cons, app_nil_r. cbn [snd].
+      rewrite map_length, (length_kshape D K).
+      rewrite rd_factors_lines_l by exact W. cbn [bindo]. destruct K as [w fs]. cbn in Ew. now subst w. }
     destruct (rd_vals_rows [kweights K] (to_stream (flat_map (factor_lines D T print (krank K)) (kfactors K)))) as (s' & E & Hs').
     { constructor; [|constructor]. intros E. unfold krank in HR. rewrite E in HR. cbn in HR. lia. }
     cbn [concat map] in E. rewrite app_nil_r in E. fold (krank K) in E. rewrite to_stream_cons.
     rewrite to_stream_cons in E. change (to_stream []) with (@nil (option token)) in E. rewrite <- app_assoc in E. cbn [app] in E.
     rewrite (rd_weights_vals _ _ _ E). cbn [bindo fst snd]. rewrite Hs' by discriminate.
+    replace (Nat.eqb (krank K) 0) with false by (symmetry; now apply Nat.eqb_neq).
     rewrite skip_ws_lines.
     + rewrite map_length, (length_kshape D K). fold (krank K).
       rewrite rd_factors_lines_l by auto. cbn [bindo]. now destruct K.
